@@ -282,6 +282,9 @@ func C14(c *Ctx) {
 		r.Floor("R14.6", "balance writes in transfer", c.transferSignCheck("R14.6", tr), 2)
 	}
 
+	r.Rule("R14.7", "a reverted credit is taken back in full (shared with C10 R10.4): "+balanceInPlaceText+" A transfer that is reverted (the fee cannot be paid) then 'restores' the receiver to its balance plus the amount while the sender is restored too: value is created.")
+	c.balanceInPlace("R14.7")
+
 	// R14.2
 	nDeb := 0
 	for _, s := range all {
